@@ -28,9 +28,10 @@ def run(ctx):
                                                              'Rate::const_hz', 'rate', 'phase', 'ConstHz::step'],
              search_map={'Window::new': ['Window::next'], 'Phase::next_phase': ['Window::next'], 'Phase::next_phase_wrapped_to': ['Window::next'],
                          'Rate::const_hz': ['Window::next'], 'rate': ['Window::next'], 'phase': ['Window::next'], 'ConstHz::step': ['Window::next']})
-    note0 = ('BOUNDED (concrete shapes, symbolic contents): chunk data path for (L,b,h) in {(4,3,1),(5,5,2),(6,2,3),(3,4,1)}: chunk k holds '
-             'frames k*h..k*h+b-1, each multiplied ONCE by the window value (probe window function 1.5 + phase; under Kani the wrapped '
-             'phase is always 0, so the position-dependence of the window value is NOT exercised here), exactly count(L,b,h) chunks')
+    note0 = ('BOUNDED (concrete shapes, symbolic contents incl. exact silence): chunk data path for (L,b,h) in {(4,3,1),(5,5,2),(6,2,3),(3,4,1)}: '
+             'chunk k holds frames k*h..k*h+b-1, the j-th frame of a chunk is multiplied by the j-th window evaluation of that chunk (a probe '
+             'window function that counts its evaluations: exactly one per frame, in order), exactly count(L,b,h) chunks; that each '
+             'evaluation happens at phase j/(b-1) is the Verus contract of Window::next')
     ctx.bounded.append(note0)
     run_kani(ctx, 'window', harness=['c20_windower_next_arith', 'c20_chunk_path'], harness_timeout='5m')
     if ctx.tier == 'thorough':
